@@ -86,13 +86,13 @@ def groups(sc, tier):
     for a, b in shapes:
         gs.append(Group("C07.K5.add_compound_data.%dx%d" % (a, b), "K5", "lemma_add_compound_data", sources=["src/xraylib-parser.c", "src/xraylib-aux.c"],
                         extra=["harness/h_parser.c"], export_local=True, remove_bodies=["__CPROVER_file_local_xraylib_parser_c_CompoundParserSimple"],
-                        harness_defines=["-DNMAXEL=%d" % n, "-DLEMMA_ADD", "-DNA_EL=%d" % a, "-DNB_EL=%d" % b], backends=("sat", "cvc5"), timeout=1200,
+                        harness_defines=["-DNMAXEL=%d" % n, "-DLEMMA_ADD", "-DNA_EL=%d" % a, "-DNB_EL=%d" % b], backends=("sat", "cvc5"), timeout=600,
                         defines=["-include", os.path.join(VERIF, "harness/realloc_typed.h")], unwind=8, leak_check=True, functions=["add_compound_data", "compareInt"], attempt_only=True,
                         note="ascending union and wA*fA + wB*fB: no back end finishes within 20 min (symbolic realloc/calloc sizes); thorough tier, attempted",
                         bounded="compositions of %d and %d elements" % (a, b)))
         gs.append(Group("C07.K5.add_compound_data_elements.%dx%d" % (a, b), "K5", "lemma_add_compound_data", sources=["src/xraylib-parser.c", "src/xraylib-aux.c"],
                         extra=["harness/h_parser.c"], export_local=True, remove_bodies=["__CPROVER_file_local_xraylib_parser_c_CompoundParserSimple"],
-                        harness_defines=["-DNMAXEL=%d" % n, "-DLEMMA_ADD", "-DELEMENTS_ONLY", "-DNA_EL=%d" % a, "-DNB_EL=%d" % b], backends=("sat", "cvc5"), timeout=1200,
+                        harness_defines=["-DNMAXEL=%d" % n, "-DLEMMA_ADD", "-DELEMENTS_ONLY", "-DNA_EL=%d" % a, "-DNB_EL=%d" % b], backends=("sat", "cvc5"), timeout=600,
                         defines=["-include", os.path.join(VERIF, "harness/realloc_typed.h")], unwind=8, leak_check=True, functions=["add_compound_data", "compareInt"],
                         bounded="compositions of %d and %d elements" % (a, b)))
     m = re.search(r'g_shapes\[\] = \{([^}]*)\}', open(os.path.join(VERIF, "harness/h_parser.c")).read())
@@ -103,7 +103,7 @@ def groups(sc, tier):
             continue
         gs.append(Group("C07.K5.scanner_shape.%d" % k, "K5", "lemma_scanner_shape", sources=["src/xraylib-parser.c", "src/xraylib-aux.c"], extra=["harness/h_parser.c"],
                         export_local=True, defines=["-D__NO_CTYPE", "-include", os.path.join(VERIF, "harness/realloc_typed.h")], harness_defines=["-DNMAXEL=%d" % n, "-DLEMMA_SCAN", "-DSHAPE=%d" % k] + (["-DNO_COUNTS"] if re.search(r"[0-9]", txt) else []),
-                        backends=("sat", "cvc5"), timeout=900, unwind=20, functions=["CompoundParserSimple", "compareCompoundAtoms"],
+                        backends=("sat", "cvc5"), timeout=1800, unwind=20, functions=["CompoundParserSimple", "compareCompoundAtoms"],
                         # at most 4 distinct elements: tight bounds for the loops over the element list (unwinding assertions stay on)
                         flags=["--unwindset", ",".join("%s:6" % l for l in ("qsort.0", "qsort.1", "bsearch.0", "bsearch.1", "xrlv_realloc.0", "xrlv_realloc.1",
                                                                           "__CPROVER_file_local_xraylib_parser_c_CompoundParserSimple.6"))],
@@ -113,7 +113,7 @@ def groups(sc, tier):
                         export_local=True, defines=["-D__NO_CTYPE", "-include", os.path.join(VERIF, "harness/realloc_typed.h")],
                         harness_defines=["-DNMAXEL=%d" % n, "-DLEMMA_SCAN", "-DSHAPE=%d" % k, "-DCONCRETE_SUBSCRIPTS", "-DNOCC=%d" % len(occ),
                                          "-DOCC={%s}" % ",".join("{%d,%r}" % (l, w) for l, w in occ)],
-                        backends=("sat", "cvc5"), timeout=900, unwind=20, functions=["CompoundParserSimple", "compareCompoundAtoms"],
+                        backends=("sat", "cvc5"), timeout=1800, unwind=20, functions=["CompoundParserSimple", "compareCompoundAtoms"],
                         flags=["--unwindset", ",".join("%s:6" % l for l in ("qsort.0", "qsort.1", "bsearch.0", "bsearch.1", "xrlv_realloc.0", "xrlv_realloc.1",
                                                                           "__CPROVER_file_local_xraylib_parser_c_CompoundParserSimple.6"))],
                         bounded="formula shape '%s' with its subscripts as written; atomic numbers behind the letters symbolic (letters may coincide)" % txt))
